@@ -148,6 +148,16 @@ CLAIMED = {
              "INCLUDE/IMPORT/submodule association outside",
         ref="DESIGN.md section 5 C05",
     ),
+    "C12": dict(
+        text="Completion through the real server over the C05 worlds (accessibility forms x USE plain/ONLY/rename x re-export x default "
+             "PRIVATE x local/host declarations x a second USE of the same module): at every use site and for every non-empty prefix of the "
+             "identifier the user-declared labels offered are exactly the names a reference resolver (Fortran rules) makes accessible there "
+             "with that prefix; CALL context: callable only. 18 context lines: member chains offer exactly own + inherited components, USE "
+             "offers modules only, USE..ONLY public members only, TYPE(/CLASS( derived types only.",
+        note="world parameters are symbolic ints forked by the solver, the worlds below them enumerated concretely; intrinsic/keyword items "
+             "ignored; known finding C05-reexport-private-default excluded by its predicate",
+        ref="DESIGN.md section 5 C12",
+    ),
 }
 
 NOT_APPLICABLE = {
